@@ -111,8 +111,8 @@ Proof.
   unfold docmd. destruct (N.leb_spec nspawn (c_delnum c)) as [|Hlt]; [discriminate|].
   destruct (used (c_delnum c)) eqn:Eu; [discriminate|].
   destruct (negb (messid_ok_from _ _)); [discriminate|]. destruct (Nat.ltb _ _); [discriminate|].
-  destruct (c_messid c) eqn:Ec; [discriminate|]. destruct (negb (has _ _)); [discriminate|].
-  destruct (file (n :: b)) eqn:Ef; intro HH; try discriminate. injection HH as <- <-. auto.
+  destruct (c_messid c) as [|m0 mt] eqn:Ec; [discriminate|]. destruct (negb (has _ _)); [discriminate|].
+  destruct (file (m0 :: mt)) eqn:Ef; intro HH; try discriminate. injection HH as <- <-. auto.
 Qed.
 
 (* only digits and, after the first character, slashes: no dot, no leading slash *)
